@@ -232,6 +232,10 @@ def roundtrip_cases():
         shapes = {
             "PointCloud": lambda P=P: ms.PointCloud(P), "PointCloudNaN": lambda nanP=nanP: ms.PointCloud(nanP),
             "TriMesh": lambda P=P: ms.TriMesh(P, trilist=tl),
+            # the coordinates' number type is not part of the data: whole numbers stored as int64, halves / quarters as float32
+            "PointCloudInt64": lambda P=P: ms.PointCloud(np.round(P * 4).astype(np.int64)),
+            "PointCloudFloat32": lambda P=P: ms.PointCloud(P.astype(np.float32)),
+            "PointUndirectedGraphInt32": lambda P=P: ms.PointUndirectedGraph.init_from_edges(np.round(P * 4).astype(np.int32), edges.astype(np.int32)),
             "PointUndirectedGraph": lambda P=P: ms.PointUndirectedGraph.init_from_edges(P, edges),
             "PointUndirectedGraphNoEdges": lambda P=P: ms.PointUndirectedGraph.init_from_edges(P, np.zeros((0, 2), dtype=int)),
             "PointDirectedGraph": lambda P=P: ms.PointDirectedGraph.init_from_edges(P, edges),
@@ -253,6 +257,8 @@ def roundtrip_cases():
             out.append(("ljson %dD %s" % (d, n), "ljson", "rt.ljson", f))
     out.append(("pts", "pts", "rt.pts", lambda: ms.PointCloud(np.array([[0.12345, 10.5], [3.0006, 2.9994], [7.25, 0.0]]))))
     # coordinates of every magnitude an image can have (the three-decimal promise is absolute, not relative)
+    out.append(("pts int64 coordinates", "pts", "rt.int.pts", lambda: ms.PointCloud(np.array([[12, 0], [3, 2047], [511, 7]], dtype=np.int64))))
+    out.append(("pts float32 coordinates", "pts", "rt.f32.pts", lambda: ms.PointCloud(np.array([[0.5, 10.25], [300.125, 2.75], [7.25, 0.0]], dtype=np.float32))))
     out.append(("pts large coordinates", "pts", "rt.big.pts", lambda: ms.PointCloud(np.array([[1234.5678, 0.0004], [10000.1234, 99999.9996], [512.0005, 2047.4994]]))))
     # multi-dot file names for every format
     out.append(("pts multi-dot name", "pts", "rt.v2.final.pts", lambda: ms.PointCloud(np.array([[0.5, 1.25], [2.0, 3.0], [4.0, 0.125]]))))
